@@ -57,7 +57,7 @@ class Stats(object):
         self.parts = {}  # part name -> dict(evaluations, wall_s, exhaustive)
         self.notes = []
 
-    def record(self, case, out, distinct_by_construction=False):
+    def record(self, case, out, distinct_by_construction=False, part=None):
         self.evaluations += 1
         for c in out.classes:
             self.classes[c] += 1
@@ -81,7 +81,7 @@ class Stats(object):
             size = case_size(case)
             f = self.failures.get(bucket)
             if f is None:
-                self.failures[bucket] = dict(case=case, message=message, size=size, count=1)
+                self.failures[bucket] = dict(case=case, message=message, size=size, count=1, part=part)
             else:
                 f["count"] += 1
                 if size < f["size"]:
